@@ -91,6 +91,13 @@ STRESS += [
     "class A<int x, int y = 0>; def d : A<x = 1, x = 2>; def e : A<y = 1>; def f : A<1, 2, 3>;",
     "class Base { int v = 0; } class A : Base; class B : Base; class Z; def a : A; def b : B; def z : Z; defvar x = !if(1, a, b); defvar y = x.v; "
     "defvar w = !if(1, a, z); defvar l = !listconcat([a], [b]); defvar m = !if(1, [a], [b]); defvar n = !listconcat([A<>], [Base<>]);",
+    # widths and lengths of zero under every operation that subtracts from, indexes into or divides by them
+    "class A { bits<0> f; let f{0} = 1; } class Base { bits<0> Enc; } class Mid : Base; def I : Mid { let Enc{3-0} = 5; }",
+    "def d { bits<4> f; bits<0> f; let f{3...0} = 1; } def e { bits<0> f; bits<4> f; let f{3...0} = 1; }",
+    "class Z { bits<0> z = {}; bits<1> o = z{0}; let z{0-0} = ?; bits<0> y = z{}; bits<2> w = { z, z, 0b11 }; }",
+    "def l0 { list<int> l = []; int x = l[0]; list<int> s = l[0...1]; int h = !head(l); list<int> t = !tail(l); int n = !size(l); }",
+    "class W<bits<0> a = 0, list<int> l = []> { bits<0> b = a; int c = l[0]; } def w0 : W; def w1 : W<{}, []>; def w2 : W<0b0>;",
+    "def r0 { bits<8> f; let f{0-0} = 1; let f{7...7} = 1; let f{8} = 1; let f{8-7} = 1; let f{7-8} = 1; let f{0...0, 0} = 1; }",
 ]
 
 WIDE = ["// é\n", "/* 😀 \r\n ü */", "\r\n", "// \U000F0001\r", "def w1 { string s = \"größe\U0001F600\"; }\r\n", " ", "\x0c"]
